@@ -388,6 +388,37 @@ def run(ctx):
         else:
             ctx.sample({"rule": R, "cell": cell, "version": v_set,
                         "guess": g_set, "calls": ns}, limit=12)
+    # the record type of a text line is its first field, not its first
+    # character: 'S31 ...', 'Ex ...', 'H2 ...' are custom records (queued
+    # while the version is unknown) and a '#...' line is a comment
+    for text, kind in (("S31\tx", "other"), ("Ex\tx", "other"),
+                       ("H2\tx", "other"), ("L1\tx", "other"),
+                       ("#c\tx", "comment"), ("#", "comment")):
+        ctx.instance(R)
+        made = {}
+
+        def factory(t, kwargs, made=made):
+            made["line"] = mk_line("#" if t.startswith("#") else "X", "gfa2",
+                                   None)
+            return made["line"]
+        uh = UH(repo, factory)
+        g = mk_gfa(None)
+        out = eval_function(repo, f_u, [g, text], hooks=uh)
+        ns = names(out[2])
+        queue = g.attrs["_line_queue"]
+        if kind == "comment":
+            ok = out[0] == "return" and "connect" in ns and not queue and \
+                not stores(out[2], "_version")
+        else:
+            ok = out[0] == "return" and queue == [text] and \
+                not stores(out[2], "_version") and \
+                not stores(out[2], "_version_guess") and "connect" not in ns
+        ctx.oblige(ok)
+        if not ok:
+            ctx.violation(R, f_u.short, "text=%r" % text,
+                          "outcome %r; version stores %r, calls %r, queue %r "
+                          "(the record type is the whole first field)" % (
+                              out[0:2], stores(out[2], "_version"), ns, queue))
     # a VN other than 1.0 / 2.0 is refused at vlevel > 0 (the version
     # specific adders accept exactly those two spellings)
     for vl, vn in itertools.product((0, 1), ("3.0", "1.1", "1.2", "2.1", "1")):
